@@ -138,4 +138,45 @@ theorem newFilesX_conservative {xs : List XFile} (hp : ∀ x ∈ xs, plain x = t
     · simp [h1, hsyn, himp, h2]
   · simp [h1]
 
+theorem exists_preimage {α β : Type} (g : α → β) (xs : List α) : ∀ l : List β, (∀ f ∈ l, f ∈ xs.map g) →
+    ∃ ys : List α, List.map g ys = l ∧ ∀ y ∈ ys, y ∈ xs := by
+  intro l
+  induction l with
+  | nil => intro _; exact ⟨[], rfl, by simp⟩
+  | cons a r ih =>
+    intro h
+    rcases ih (fun f hf => h f (List.mem_cons_of_mem _ hf)) with ⟨ys, hy, hs⟩
+    rcases List.mem_map.1 (h a List.mem_cons_self) with ⟨y, hyx, hya⟩
+    refine ⟨y :: ys, by simp [hy, hya], ?_⟩
+    intro z hz
+    rcases List.mem_cons.1 hz with e | hz
+    · subst e; exact hyx
+    · exact hs z hz
+
+theorem pkgConflict_sub {xs ys : List XFile} (hs : ∀ y ∈ ys, y ∈ xs) (hk : pkgConflictB xs = false) :
+    pkgConflictB ys = false := by
+  cases hq : pkgConflictB ys with
+  | false => rfl
+  | true =>
+    exfalso
+    unfold pkgConflictB at hq
+    rw [List.any_eq_true] at hq
+    rcases hq with ⟨y, hy, hp⟩
+    rw [List.any_eq_true] at hp
+    rcases hp with ⟨p, hp1, hp2⟩
+    have hp3 : p ∈ allSymbols ys := by simpa using hp2
+    have hp4 : p ∈ allSymbols xs := by
+      unfold allSymbols symbols at hp3 ⊢
+      rcases List.mem_flatMap.1 hp3 with ⟨f, hf, hpf⟩
+      rcases List.mem_map.1 hf with ⟨z, hz, rfl⟩
+      exact List.mem_flatMap.2 ⟨z.file, List.mem_map.2 ⟨z, hs z hz, rfl⟩, hpf⟩
+    have hT : pkgConflictB xs = true := by
+      unfold pkgConflictB
+      rw [List.any_eq_true]
+      refine ⟨y, hs y hy, ?_⟩
+      rw [List.any_eq_true]
+      exact ⟨p, hp1, by simpa using hp4⟩
+    rw [hT] at hk
+    exact Bool.noConfusion hk
+
 end GB.C05
